@@ -427,6 +427,7 @@ impl Value {
                         false
                     }
                 }
+                Value::ArgList(..) => self != other,
                 _ => true,
             },
             s => s != other,
